@@ -69,3 +69,24 @@ func TestGating(t *testing.T) {
 			s.ProbeEvery = 3*time.Minute + 17*time.Second
 		}}, gatingCheckers)
 }
+
+// TestGatingWithSilences: the same with silences in play. A group all of whose alerts are silenced
+// still flushes; "the group is reported as muted, with the muting interval names, by the API" does not
+// depend on whether the alerts would have been notified otherwise.
+func TestGatingWithSilences(t *testing.T) {
+	sub := vf.Cur().Sub("gating-with-silences", "as 'gating', with 1-3 silences per scenario (created active or pending, extended, expired early) so that groups are flushed while all or some of their alerts are silenced, inside and outside the mute/active intervals of their route: same checkers (nothing is sent from a muted flush; GET /alerts/groups reports mutedBy = the muting interval names after a muted flush and nothing after an unmuted one - whether or not the alerts are silenced); non-trivial = some group was judged while muted and some probe saw a silenced alert; distinct by (seed, attempts, counters)", 10)
+	ck := map[string]sysrun.Checker{}
+	for k, v := range gatingCheckers {
+		ck[k] = v
+	}
+	ck["api-status"] = oracle.APIStatus
+	sysrun.Run(t, "C15", sub, sysrun.Family{Name: "gatingsil", Quick: 100, Thorough: 4000,
+		NonTrivial: func(c map[string]int64) bool {
+			return c["group-muted-by.groups_muted"]+c["groups_muted"] > 0 && c["api-status.api_statuses_silenced"]+c["api_statuses_silenced"] > 0
+		},
+		Opt: scen.GenOpt{Horizon: 4 * time.Hour, Depth: 2, Fanout: 2, Intervals: true, Silences: true, Probes: true, ShortTimers: true, MaxLabelSets: 5},
+		Mutate: func(r *rand.Rand, s *scen.Scenario) {
+			addIntervals(r, s)
+			s.ProbeEvery = 3*time.Minute + 17*time.Second
+		}}, ck)
+}
